@@ -94,6 +94,9 @@ def scene(c):
         elif s["kind"] == "gauss":
             o = fdtdx.GaussianPlaneSource(name=name, partial_grid_shape=shape, direction=s.get("dir", "+"), radius=2e-7,
                                           fixed_E_polarization_vector=tuple(s["epol"]), wave_character=wc)
+        elif s["kind"] == "gmode":      # Gaussian mode-overlap detector on a plane (its mode profile / index depends on the materials)
+            o = fdtdx.GaussianModeOverlapDetector(name=name, partial_grid_shape=shape, wave_characters=(wc,), mode_radius=3e-7,
+                                                  direction=s.get("dir", "+"))
         elif s["kind"] == "field":
             o = fdtdx.FieldDetector(name=name, partial_grid_shape=shape, dtype=jnp.float64)
         elif s["kind"] == "block":
@@ -132,6 +135,17 @@ def scene(c):
         res["keydep"][o.name] = maxdiff(fresh2, fresh)
         res["stale"][o.name] = maxdiff(after[o.name], fresh)
         # how far is the pre-device set-up from the post-device one (0 => the check cannot distinguish)
+    # a second parameter set applied to the containers RETURNED by the first call (an optimisation loop that rebinds objects / arrays)
+    newp2 = {k: jnp.asarray(rng.uniform(0.05, 0.95, size=np.asarray(v).shape)) for k, v in params.items()}
+    arrays3, oc3, _ = fdtdx.apply_params(arrays2, oc2, newp2, KEY)
+    after3 = {o.name: o for o in oc3.object_list}
+    kw3 = dict(inv_permittivities=arrays3.inv_permittivities, inv_permeabilities=arrays3.inv_permeabilities,
+               dispersive_c1=arrays3.dispersive_c1, dispersive_c2=arrays3.dispersive_c2, dispersive_c3=arrays3.dispersive_c3,
+               dispersive_c4=arrays3.dispersive_c4, electric_conductivity=arrays3.electric_conductivity)
+    res["stale2"] = {}
+    for o in oc.object_list:
+        if o.name in res["stale"]:
+            res["stale2"][o.name] = maxdiff(after3[o.name], o.apply(key=KEY, **kw3))
     return res
 
 
